@@ -52,19 +52,61 @@ type PropSpec struct {
 }
 
 type Runner struct {
-	rec     *Recorder
-	genv    *GenEnv
-	mu      sync.Mutex
-	invSeq  int
-	ctxIDs  map[context.Context]int
-	cleanID int
-	keyed   map[uint64][]Op
-	prop    *PropSpec
-	counter map[string]int // per-scenario counters (j-th call of an action etc.)
-	curTop    int          // id of the property-function invocation in progress
+	rec       *Recorder
+	genv      *GenEnv
+	mu        sync.Mutex
+	invSeq    int
+	ctxIDs    map[context.Context]int
+	cleanID   int
+	keyed     map[uint64][]Op
+	prop      *PropSpec
+	counter   map[string]int // per-scenario counters (j-th call of an action etc.)
+	curTop    int            // id of the property-function invocation in progress
 	curCtxs   *[]ctxRef
-	lastCtxs  []ctxRef     // contexts of the last finished property-function invocation
-	firstFail int          // id of the first invocation that signalled a failure (0 = none yet)
+	lastCtxs  []ctxRef // contexts of the last finished property-function invocation
+	firstFail int      // id of the first invocation that signalled a failure (0 = none yet)
+}
+
+// A barrier holds goroutines at a named gate of rapid (hook verifAt) until n of them have arrived
+// (or a short time has passed), so that they enter the next step together: schedule replay of the
+// interleavings the design model singles out.
+type barrier struct {
+	mu      sync.Mutex
+	point   string
+	need    int
+	arrived int
+	release chan struct{}
+}
+
+var theBarrier barrier
+
+func (r *Runner) setBarrier(point string, n int) {
+	theBarrier.mu.Lock()
+	theBarrier.point, theBarrier.need, theBarrier.arrived = point, n, 0
+	theBarrier.release = make(chan struct{})
+	theBarrier.mu.Unlock()
+}
+
+// GateFn is installed with rapid.VerifSetGate.
+func GateFn(point string) {
+	b := &theBarrier
+	b.mu.Lock()
+	if b.point == "" || b.point != point || b.arrived >= b.need {
+		b.mu.Unlock()
+		return
+	}
+	b.arrived++
+	ch := b.release
+	if b.arrived == b.need {
+		close(ch)
+		b.mu.Unlock()
+		return
+	}
+	b.mu.Unlock()
+	select {
+	case <-ch:
+	case <-time.After(50 * time.Millisecond): // the others cannot get here (e.g. a lock is held): go on
+	}
 }
 
 func NewRunner(rec *Recorder) *Runner {
@@ -74,13 +116,15 @@ func NewRunner(rec *Recorder) *Runner {
 }
 
 type inv struct {
-	r    *Runner
-	t    *rapid.T
-	id   int
-	top  int // id of the enclosing property-function invocation
-	ctxs *[]ctxRef // every context obtained in this invocation (shared with sub-scripts)
-	vars map[string]any
-	last string
+	r     *Runner
+	t     *rapid.T
+	id    int
+	top   int       // id of the enclosing property-function invocation
+	ctxs  *[]ctxRef // every context obtained in this invocation (shared with sub-scripts)
+	g     int       // goroutine tag (0 = the goroutine running the property)
+	quiet bool      // do not record the steps of this script (ungated race-detector runs)
+	vars  map[string]any
+	last  string
 }
 
 func (r *Runner) ctxID(c context.Context) int {
@@ -189,7 +233,9 @@ func (in *inv) call(m string, site int, msg string) {
 		}
 		in.r.mu.Unlock()
 	}
-	in.r.rec.Emit("call", F{"inv": in.id, "m": m, "site": site, "msg": Digest(msg)})
+	if !in.quiet {
+		in.r.rec.Emit("call", F{"inv": in.id, "m": m, "site": site, "msg": Digest(msg), "g": in.g})
+	}
 }
 
 // expectedMsg is the text rapid reports for a failure raised by op at site tag
@@ -289,14 +335,17 @@ func (in *inv) step(op *Op) {
 	case "name":
 		_ = t.Name()
 	case "failed":
-		r.rec.Emit("failed.read", F{"inv": in.id, "v": t.Failed()})
+		v := t.Failed()
+		if !in.quiet {
+			r.rec.Emit("failed.read", F{"inv": in.id, "v": v, "g": in.g})
+		}
 	case "cleanup":
 		r.mu.Lock()
 		r.cleanID++
 		id := r.cleanID
 		r.mu.Unlock()
 		body := op.Body
-		r.rec.Emit("cleanup.reg", F{"inv": in.id, "id": id})
+		r.rec.Emit("cleanup.reg", F{"inv": in.id, "id": id, "g": in.g})
 		t.Cleanup(func() {
 			r.rec.Emit("cleanup.run", F{"inv": in.id, "id": id})
 			r.mu.Lock()
@@ -316,8 +365,8 @@ func (in *inv) step(op *Op) {
 	case "ctx":
 		c := t.Context()
 		in.noteCtx(c)
-		f := F{"inv": in.id, "id": r.ctxID(c), "err": ctxErr(c), "where": op.Text}
-		if op.Var != "" {
+		f := F{"inv": in.id, "id": r.ctxID(c), "err": ctxErr(c), "where": op.Text, "g": in.g}
+		if op.Var != "" && in.g == 0 {
 			in.vars[op.Var] = c
 		}
 		r.rec.Emit("ctx", f)
@@ -339,14 +388,24 @@ func (in *inv) step(op *Op) {
 		if n == 0 {
 			n = 1
 		}
+		start := make(chan struct{})
+		if op.Val != "" {
+			r.setBarrier(op.Val, n)
+			defer r.setBarrier("", 0)
+		}
 		for g := 0; g < n; g++ {
 			wg.Add(1)
+			g := g
 			go func() {
 				defer wg.Done()
-				sub := &inv{r: r, t: t, id: in.id, top: in.top, vars: in.vars, ctxs: in.ctxs}
-				sub.run(op.Body)
+				sub := &inv{r: r, t: t, id: in.id, top: in.top, vars: in.vars, ctxs: in.ctxs, g: g + 1, quiet: op.Text == "quiet"}
+				<-start
+				for rep := 0; rep < 1+op.Ms; rep++ {
+					sub.run(op.Body)
+				}
 			}()
 		}
+		close(start)
 		wg.Wait()
 	case "sleep":
 		time.Sleep(time.Duration(op.Ms) * time.Millisecond)
